@@ -454,6 +454,10 @@ def main(argv=None):
 
     # report violations
     outdir = os.path.join(VERIF, "out", check.id)
+    if os.path.isdir(outdir):  # reproducers of earlier runs are stale
+        for name in os.listdir(outdir):
+            if name.startswith("viol-"):
+                os.unlink(os.path.join(outdir, name))
     nviol = 0
     for path, f in replay_viol:
         nviol += 1
